@@ -32,7 +32,8 @@ LEVEL_TEXT = ("Exploration: every generated tree (all shape classes with emphasi
               " Generated trees come in several representations of the same values (strided, other dtypes / lists, one array as two columns, read-only where the harness never writes) and half of them were queried, a third put through aborted operations, before use. Topology is also edited through the caller's own parent array (the tree holds a read-only view of it)."
               " Fan-outs of exactly 255 / 256 / 257 / 512 / 513 at the root and at an interior node; size sweep to 2050 nodes."
               " BranchTree instances handed to ToBranchTree / from_tree."
-              " Decompositions asked for from inside the callbacks of a traversal of another tree.")
+              " Decompositions asked for from inside the callbacks of a traversal of another tree."
+              " One tree of 40 000 .. 70 000 nodes through the decompositions.")
 LEVEL_NOTE = ("Branch / path order is free (sets of id tuples); ToLongestPath ties within 1e-6 "
               "relative are inconclusive; Node.branch is decided for pass-through nodes, tips and a "
               "root with one child (for a furcation the statement says nothing).")
